@@ -21,6 +21,7 @@ From FB.Proofs Require Import BuildFileLaws FrameLaws RollbackLaws CommitDirsMai
 (* T1g: Model/BuildDirs.v and Model/CreatedFiles.v are equal to the translation of build_dirs.py / created_files.py
    (Gen/BookGen.v, regenerated on every run); a change of those sources that the model does not follow breaks this import *)
 From FB.Proofs Require BookGenLaws.
+From FB.Proofs Require OpsGenLaws.   (* T1g: build_file*, subbuild, queries, cache validation of file_builder.py = Model/Builder.v (Gen/OpsGen.v) *)
 Import ListNotations.
 
 Theorem C10_state_after_a_committed_build : forall cf nm vers svers root w w' v (P : path -> Prop),
